@@ -42,7 +42,17 @@ def gen_cases(tier, seed):
             elif kind == "rand":
                 lines = [c13.random_line(r) for _ in range(r.randrange(1, 5))]
             texts.append(lines)
+        # twins: the same operand text under different mnemonics / with different symbol values in different programs of one group -
+        # anything cached on operand text alone, or on a symbol name, makes the later program depend on the earlier one
+        opnd = r.choice(["S,X", "U,PC", "A,B", "X,Y", "D,X", "#5", "$10,X", "[$1234]", "V*2", "V+1", "#V", "L+1", "1,2,3", "V", "L", "-5,Y", "V,PCR"])
+        fam = r.choice([("PSHU", "PSHS"), ("PULS", "PULU"), ("TFR", "EXG"), ("LDA", "LDX"), ("FCB", "FDB"), ("LDA", "LEAX"), ("JMP", "LBRA"), ("STA", "CMPU")])
+        v1, v2 = r.sample([1, 2, 5, 7, 100, 255, 256, 1000], 2)
+        for mn, v, org in ((fam[0], v1, 0x1000), (fam[1], v2, 0x2000)):
+            texts.append(["V EQU %d\n" % v, " ORG $%X\n" % org, " RMB %d\n" % v, "L NOP\n", " %s %s\n" % (mn, opnd), " RTS\n"])
         yield {"id": "group/%d" % g, "texts": texts}
+    # include files that change between two assemblies in the same process (same name, same size, same second)
+    for k in range(40 if thorough else 6):
+        yield {"id": "include-rewrite/%d" % k, "kind": "include-rewrite", "k": k}
 
 
 def _simple(x, depth=0):
@@ -107,7 +117,52 @@ def fresh(texts, order, hashseed):
     return json.loads(p.stdout)["fps"]
 
 
+def run_include_rewrite(case, ctx):
+    import tempfile, shutil
+    r = rng(ctx.seed, "C17", case["id"])
+    d = tempfile.mkdtemp(prefix="c17-", dir=os.environ.get("VERIF_WORK"))
+    cwd = os.getcwd()
+    try:
+        os.chdir(d)
+        main = [" ORG $1000\n", "START LDA #1\n", " INCLUDE part.asm\n", "AFTER NOP\n", " JMP START\n"]
+        versions = [[" LDB #%d\n" % r.randrange(256), " NOP\n"], [" LDB #%d\n" % r.randrange(256), " CLRA\n"], [" FCB %d,%d,%d\n" % (r.randrange(256), r.randrange(256), r.randrange(256))],
+                    ["INNER LDX #$%04X\n" % r.randrange(65536)], [" RMB %d\n" % r.randrange(1, 9)]]
+        r.shuffle(versions)
+        seen = []
+        for vi, body in enumerate(versions):
+            with open("part.asm", "w") as f:
+                f.write("".join(body))
+            os.utime("part.asm", (1700000000, 1700000000))            # identical timestamps: only the content differs
+            got = fpworker.fingerprint(list(main))
+            spliced = main[:2] + body + main[3:]
+            want = fpworker.fingerprint(list(spliced))
+            ctx.mon("include-rewrite-assemblies")
+            if got != want:
+                ctx.outcome("stale-include")
+                ctx.violation("determinism", "include-rewrite", "STALE-INCLUDE-CONTENT", {"show": "%s version %d: INCLUDE part.asm does not reflect the file's current content" % (case["id"], vi),
+                                                                                        "include": "".join(body), "got": json.dumps(got)[:200], "want": json.dumps(want)[:200]})
+                return
+        # the same file name in another working directory
+        os.mkdir("other")
+        os.chdir("other")
+        with open("part.asm", "w") as f:
+            f.write(" FCB $EE,$EE\n")
+        got = fpworker.fingerprint(list(main))
+        want = fpworker.fingerprint(main[:2] + [" FCB $EE,$EE\n"] + main[3:])
+        if got != want:
+            ctx.outcome("stale-include")
+            ctx.violation("determinism", "include-rewrite", "STALE-INCLUDE-CONTENT:other-cwd", {"show": "%s: same include name in another working directory served from the earlier one" % case["id"]})
+            return
+        ctx.outcome("include-rewrite-ok")
+        ctx.nontriv(case["id"])
+    finally:
+        os.chdir(cwd)
+        shutil.rmtree(d, ignore_errors=True)
+
+
 def run_case(case, ctx):
+    if case.get("kind") == "include-rewrite":
+        return run_include_rewrite(case, ctx)
     texts = case["texts"]
     r = rng(ctx.seed, "C17", case["id"], "orders")
     n = len(texts)
